@@ -216,7 +216,7 @@ fn run_case(input: &str) -> String {
     }
 }
 
-fn run(input: &str) -> String {
+pub fn run(input: &str) -> String {
     if std::env::var_os("C05_TRACE").is_some() {
         let _ = std::panic::take_hook();
     }
@@ -426,7 +426,7 @@ impl<'a> Gen<'a> {
                 if ty == 5 {
                     let ligs: Vec<T> = (0..nb)
                         .map(|_| {
-                            let ncomp = self.rng.range(1, 3);
+                            let ncomp = if self.rng.chance(1, 8) { 0 } else { self.rng.range(1, 3) }; // componentCount 0 is degenerate but parses
                             T::L((0..ncomp).map(|_| T::L((0..cc).map(|_| self.opt_anchor()).collect())).collect())
                         })
                         .collect();
@@ -633,7 +633,7 @@ fn gen_placement(rng: &mut Rng, i: i64, n: i64, is_mark_like: bool) -> T {
     }
 }
 
-fn gen(rng: &mut Rng) -> String {
+pub fn gen(rng: &mut Rng) -> String {
     let gdef = gen_gdef(rng);
     // glyph classes known to the generator (to aim mark lookups at marks)
     let mut marks = vec![];
